@@ -90,7 +90,7 @@ const ALT: usize = 1000;
 // History (self-contained, replayable)
 
 #[derive(Debug, Clone, Copy, PartialEq, Eq, Hash, Serialize, Deserialize)]
-enum Rule {
+pub enum Rule {
     Spot,
     Futures,
 }
@@ -319,7 +319,7 @@ fn render_delivery(h: &History, conn: &Conn) -> Vec<String> {
 // ------------------------------------------------------------------------------------------------
 // The two rule sets: real transformers + real subscription maps
 
-trait RuleSet: 'static {
+pub trait RuleSet: 'static {
     #[allow(dead_code)]
     const RULE: Rule;
     const EXCHANGE: ExchangeId;
@@ -329,8 +329,8 @@ trait RuleSet: 'static {
     fn instrument_map(markets: &[usize]) -> (Map<Key>, Vec<Key>);
 }
 
-struct SpotRules;
-struct FuturesRules;
+pub struct SpotRules;
+pub struct FuturesRules;
 
 impl RuleSet for SpotRules {
     const RULE: Rule = Rule::Spot;
@@ -1391,6 +1391,290 @@ const REQUIRED: [&str; 23] = [
     "stage2_break_ends_connection_one_notice",
 ];
 
+// ------------------------------------------------------------------------------------------------
+// Stage 3: the library's own `MarketStream::init` over a loopback WebSocket venue.
+//
+// Stages 1 and 2 assemble the connection themselves (snapshots, transformer, stream). What a user runs is
+// `ExchangeWsStream::<Transformer>::init::<SnapshotFetcher>(&subscriptions)`: connect, subscribe, validate,
+// fetch the REST snapshots, initialise the transformer with them, hand out snapshots + updates. Here that
+// very function runs against a venue on 127.0.0.1: `Binance<LoopSpot>` / `Binance<LoopFut>` are the real
+// generic Binance connector with a server type whose URL is the loopback port; the snapshot fetcher serves
+// the venue's REST snapshot; the transformer is the real spot / futures L2 transformer behind a delegating
+// wrapper (the real ones are only implemented for the two real server types). The consumer applies what
+// the stream yields to a local book, exactly as the book manager does.
+
+mod loopback {
+    use super::*;
+    use async_trait::async_trait;
+    use barter_data::{
+        ExchangeWsStream, Identifier, MarketStream, SnapshotFetcher,
+        exchange::{Connector, ExchangeServer, binance::Binance},
+        instrument::InstrumentData,
+    };
+    use barter_integration::error::SocketError;
+    use futures::SinkExt;
+    use std::sync::{Mutex, OnceLock};
+
+    static URL: OnceLock<&'static str> = OnceLock::new();
+    /// market (upper-case) -> REST snapshot JSON of the current case
+    static SNAPS: Mutex<Vec<(String, String)>> = Mutex::new(Vec::new());
+
+    #[derive(Debug, Clone, Copy, Default, PartialEq, Eq, PartialOrd, Ord, Hash)]
+    pub struct LoopSpot;
+    #[derive(Debug, Clone, Copy, Default, PartialEq, Eq, PartialOrd, Ord, Hash)]
+    pub struct LoopFut;
+    impl ExchangeServer for LoopSpot {
+        const ID: ExchangeId = ExchangeId::BinanceSpot;
+        fn websocket_url() -> &'static str {
+            URL.get().copied().unwrap_or("ws://127.0.0.1:9")
+        }
+    }
+    impl ExchangeServer for LoopFut {
+        const ID: ExchangeId = ExchangeId::BinanceFuturesUsd;
+        fn websocket_url() -> &'static str {
+            URL.get().copied().unwrap_or("ws://127.0.0.1:9")
+        }
+    }
+
+    pub trait LoopRules: RuleSet {
+        type Server: ExchangeServer + std::fmt::Debug + Send + Sync + 'static;
+        const KIND: MarketDataInstrumentKind;
+    }
+    impl LoopRules for SpotRules {
+        type Server = LoopSpot;
+        const KIND: MarketDataInstrumentKind = MarketDataInstrumentKind::Spot;
+    }
+    impl LoopRules for FuturesRules {
+        type Server = LoopFut;
+        const KIND: MarketDataInstrumentKind = MarketDataInstrumentKind::Perpetual;
+    }
+
+    /// delegates to the real transformer of the rule set
+    pub struct LoopT<R: LoopRules>(R::T);
+
+    impl<R: LoopRules> Transformer for LoopT<R> {
+        type Error = DataError;
+        type Input = <R::T as Transformer>::Input;
+        type Output = Ev;
+        type OutputIter = <R::T as Transformer>::OutputIter;
+        fn transform(&mut self, input: Self::Input) -> Self::OutputIter {
+            self.0.transform(input)
+        }
+    }
+
+    #[async_trait]
+    impl<R: LoopRules> ExchangeTransformer<Binance<R::Server>, Key, OrderBooksL2> for LoopT<R>
+    where
+        R::T: Send,
+    {
+        async fn init(instrument_map: Map<Key>, initial_snapshots: &[Ev], ws_sink_tx: tokio::sync::mpsc::UnboundedSender<WsMessage>) -> Result<Self, DataError> {
+            Ok(LoopT(<R::T as ExchangeTransformer<R::Exch, Key, OrderBooksL2>>::init(instrument_map, initial_snapshots, ws_sink_tx).await?))
+        }
+    }
+
+    /// serves the venue's REST snapshots of the current case
+    pub struct LoopSnaps;
+    impl<Server> SnapshotFetcher<Binance<Server>, OrderBooksL2> for LoopSnaps
+    where
+        Server: ExchangeServer,
+    {
+        fn fetch_snapshots<Instrument>(
+            subscriptions: &[Subscription<Binance<Server>, Instrument, OrderBooksL2>],
+        ) -> impl std::future::Future<Output = Result<Vec<MarketEvent<Instrument::Key, OrderBookEvent>>, SocketError>> + Send
+        where
+            Binance<Server>: Connector,
+            Instrument: InstrumentData,
+            Subscription<Binance<Server>, Instrument, OrderBooksL2>: Identifier<<Binance<Server> as Connector>::Market>,
+        {
+            let snaps = SNAPS.lock().unwrap().clone();
+            let out: Result<Vec<_>, SocketError> = subscriptions
+                .iter()
+                .map(|sub| {
+                    let market = sub.id();
+                    let market: &str = market.as_ref();
+                    let (_, text) = snaps
+                        .iter()
+                        .find(|(m, _)| m.eq_ignore_ascii_case(market))
+                        .ok_or_else(|| SocketError::Subscribe(format!("loopback venue has no REST snapshot for {market}")))?;
+                    let snap: BinanceOrderBookL2Snapshot = serde_json::from_str(text).map_err(|e| SocketError::Subscribe(format!("snapshot json: {e}")))?;
+                    Ok(MarketEvent::from((Server::ID, sub.instrument.key().clone(), snap)))
+                })
+                .collect();
+            std::future::ready(out)
+        }
+    }
+
+    pub struct Env {
+        pub rt: tokio::runtime::Runtime,
+        pub listener: tokio::net::TcpListener,
+    }
+
+    pub fn env() -> Result<Env, String> {
+        let rt = tokio::runtime::Builder::new_current_thread().enable_all().build().map_err(|e| format!("runtime: {e}"))?;
+        let listener = rt.block_on(tokio::net::TcpListener::bind("127.0.0.1:0")).map_err(|e| format!("bind loopback: {e}"))?;
+        let port = listener.local_addr().map_err(|e| e.to_string())?.port();
+        let url: &'static str = Box::leak(format!("ws://127.0.0.1:{port}").into_boxed_str());
+        URL.set(url).map_err(|_| "loopback url already set (stage 3 runs on one worker only)".to_string())?;
+        Ok(Env { rt, listener })
+    }
+
+    /// One connection of `h` through the real `MarketStream::init`; returns what the stream yielded.
+    pub fn run<R: LoopRules>(env: &Env, h: &History, conn: &Conn) -> Result<Vec<Result<Ev, DataError>>, String>
+    where
+        R::T: Send,
+        <R::T as Transformer>::Input: Send,
+    {
+        *SNAPS.lock().unwrap() = h.venues.iter().enumerate().map(|(j, v)| (MARKETS[v.market].2.to_string(), render_snapshot(h.rule, v, conn.snapshot_ids[j]))).collect();
+        let payloads = render_delivery(h, conn);
+        let want_streams: Vec<String> = h.venues.iter().map(|v| format!("{}@depth@100ms", MARKETS[v.market].2.to_lowercase())).collect();
+        let subs: Vec<Subscription<Binance<R::Server>, Key, OrderBooksL2>> =
+            h.venues.iter().map(|v| Subscription::new(Binance::<R::Server>::default(), (MARKETS[v.market].0, MARKETS[v.market].1, R::KIND), OrderBooksL2)).collect();
+        env.rt.block_on(async {
+            let server = async {
+                let (tcp, _) = env.listener.accept().await.map_err(|e| format!("accept: {e}"))?;
+                let _ = tcp.set_nodelay(true);
+                let mut ws = tokio_tungstenite::accept_async(tcp).await.map_err(|e| format!("ws accept: {e}"))?;
+                // the SUBSCRIBE request must name exactly the venue's depth streams
+                loop {
+                    match ws.next().await {
+                        Some(Ok(WsMessage::Text(t))) => {
+                            let v: serde_json::Value = serde_json::from_str(&t).map_err(|e| format!("venue got non-JSON request: {e}"))?;
+                            let mut got: Vec<String> = v["params"].as_array().map(|a| a.iter().filter_map(|x| x.as_str().map(str::to_string)).collect()).unwrap_or_default();
+                            let mut want = want_streams.clone();
+                            got.sort();
+                            want.sort();
+                            if v["method"] != "SUBSCRIBE" || got != want {
+                                return Err(format!("VENUE: unexpected subscribe request {t} (expected streams {want:?})"));
+                            }
+                            break;
+                        }
+                        Some(Ok(_)) => continue,
+                        other => return Err(format!("venue: client went away before subscribing: {other:?}")),
+                    }
+                }
+                ws.send(WsMessage::text(r#"{"result":null,"id":1}"#)).await.map_err(|e| format!("venue send: {e}"))?;
+                for p in &payloads {
+                    ws.send(WsMessage::text(p.clone())).await.map_err(|e| format!("venue send: {e}"))?;
+                }
+                let _ = ws.close(None).await;
+                // drain until the client has gone
+                while let Some(Ok(_)) = ws.next().await {}
+                Ok::<(), String>(())
+            };
+            let client = async {
+                let stream = <ExchangeWsStream<LoopT<R>> as MarketStream<Binance<R::Server>, Key, OrderBooksL2>>::init::<LoopSnaps>(&subs).await.map_err(|e| format!("INIT: {e}"))?;
+                let mut stream = Box::pin(stream);
+                let mut items = vec![];
+                while let Some(item) = stream.next().await {
+                    items.push(item);
+                    if items.len() > 10 * (payloads.len() + 8) {
+                        return Err("stream yields more than ten items per delivered message".to_string());
+                    }
+                }
+                Ok::<_, String>(items)
+            };
+            match tokio::time::timeout(Duration::from_secs(60), async { tokio::join!(server, client) }).await {
+                Err(_) => Err("HARNESS: loopback session did not finish within 60 s".to_string()),
+                Ok((Err(e), _)) => Err(if e.starts_with("VENUE") { e } else { format!("HARNESS: {e}") }),
+                Ok((Ok(()), items)) => items,
+            }
+        })
+    }
+}
+
+/// Judge one connection driven through the real `MarketStream::init` (stage 3).
+fn judge_stage3<R: loopback::LoopRules>(env: &loopback::Env, h: &History, stats: &mut Stats) -> Option<Viol>
+where
+    R::T: Send,
+    <R::T as Transformer>::Input: Send,
+{
+    let conn = &h.conns[0];
+    let items = match loopback::run::<R>(env, h, conn) {
+        Ok(items) => items,
+        Err(e) if e.starts_with("HARNESS") => return Some(Viol { sig: "HARNESS".into(), detail: e }),
+        Err(e) if e.starts_with("VENUE") => return Some(Viol { sig: "subscribe_request_does_not_name_the_depth_streams".into(), detail: e }),
+        Err(e) => return Some(Viol { sig: "market_stream_init_failed".into(), detail: e }),
+    };
+    // reference: the same messages handed to the transformer directly (stage 1 machinery, unjudged here)
+    let reference = match run_conn::<R>(h, conn, None, false, &mut Stats::default()) {
+        Ok(r) => r,
+        Err(v) => return Some(Viol { sig: "HARNESS".into(), detail: format!("reference run failed: {} {}", v.sig, v.detail) }),
+    };
+    let want_admitted = reference.iter().take_while(|o| !matches!(o, Some(Outcome::ErrSeq))).filter(|o| matches!(o, Some(Outcome::Admitted))).count();
+    let (_, keys) = R::instrument_map(&h.venues.iter().map(|v| v.market).collect::<Vec<_>>());
+    let mut books: Vec<Option<OrderBook>> = h.venues.iter().map(|_| None).collect();
+    let mut admitted = 0usize;
+    for (n, item) in items.iter().enumerate() {
+        stats.messages += 1;
+        stats.checks += 1;
+        match item {
+            Ok(ev) => {
+                let Some(j) = keys.iter().position(|k| *k == ev.instrument) else {
+                    return Some(Viol { sig: "update_attributed_to_wrong_instrument".into(), detail: format!("stage 3 item #{n}: unknown instrument {:?}", ev.instrument) });
+                };
+                match (&ev.kind, &mut books[j]) {
+                    (OrderBookEvent::Snapshot(_), slot @ None) => {
+                        let mut b = OrderBook::default();
+                        b.update(ev.kind.clone());
+                        *slot = Some(b);
+                    }
+                    (OrderBookEvent::Snapshot(_), Some(_)) => {
+                        return Some(Viol { sig: "init_delivered_snapshot_after_updates_or_twice".into(), detail: format!("stage 3 item #{n}: a second snapshot / a snapshot after updates for {}", MARKETS[h.venues[j].market].2) });
+                    }
+                    (OrderBookEvent::Update(_), None) => {
+                        return Some(Viol { sig: "init_delivered_update_before_the_snapshot".into(), detail: format!("stage 3 item #{n}: an update for {} reached the consumer before the REST snapshot", MARKETS[h.venues[j].market].2) });
+                    }
+                    (OrderBookEvent::Update(_), Some(b)) => {
+                        b.update(ev.kind.clone());
+                        admitted += 1;
+                    }
+                }
+                if let Err(d) = book_matches(&h.venues[j], books[j].as_ref().unwrap()) {
+                    return Some(Viol { sig: "book_differs_from_venue".into(), detail: format!("stage 3 (MarketStream::init over loopback) item #{n}: {d}") });
+                }
+            }
+            Err(e) if e.is_terminal() => break,
+            Err(_) => {}
+        }
+    }
+    stats.checks += 2;
+    if books.iter().any(|b| b.is_none()) {
+        return Some(Viol { sig: "init_did_not_deliver_every_snapshot".into(), detail: format!("stage 3: {} of {} instruments never received their REST snapshot", books.iter().filter(|b| b.is_none()).count(), books.len()) });
+    }
+    if admitted != want_admitted {
+        return Some(Viol { sig: "init_lost_or_duplicated_admitted_updates".into(), detail: format!("stage 3: the stream yielded {admitted} updates before its first terminal error, the transformer admits {want_admitted} of the same messages") });
+    }
+    stats.cells.insert("stage3:market_stream_init_over_loopback");
+    if admitted > 0 {
+        stats.cells.insert("stage3:updates_admitted_after_snapshot");
+    }
+    None
+}
+
+fn execute_stage3(env: &loopback::Env, h: &History, report: &mut Report) {
+    let mut stats = Stats::default();
+    let v = match h.rule {
+        Rule::Spot => judge_stage3::<SpotRules>(env, h, &mut stats),
+        Rule::Futures => judge_stage3::<FuturesRules>(env, h, &mut stats),
+    };
+    report.events_observed += stats.messages;
+    report.oracle_checks += stats.checks;
+    for c in &stats.cells {
+        report.cover(c);
+    }
+    let hash = fnv1a(format!("stage3{}", witness_json(h)).as_bytes());
+    match v {
+        None => report.case(hash, stats.cells.contains("stage3:updates_admitted_after_snapshot")),
+        Some(v) if v.sig == "HARNESS" => report.harness_errors.push(format!("stage 3: {}", v.detail)),
+        Some(v) => {
+            report.case(hash, true);
+            let mut w = witness_json(h);
+            w["stage3"] = json!(true);
+            report.violation(&v.sig, v.detail, w);
+        }
+    }
+}
+
 fn main() {
     let args = Args::parse();
 
@@ -1398,7 +1682,14 @@ fn main() {
         let v: serde_json::Value = serde_json::from_str(&std::fs::read_to_string(path).expect("read replay")).expect("json");
         let h: History = serde_json::from_value(v["history"]["case"].clone()).expect("history.case");
         let mut report = Report::new("C06");
-        execute(&h, &mut report);
+        if v["history"]["stage3"] == json!(true) {
+            match loopback::env() {
+                Ok(env) => execute_stage3(&env, &h, &mut report),
+                Err(e) => report.harness_errors.push(e),
+            }
+        } else {
+            execute(&h, &mut report);
+        }
         println!("{}", serde_json::to_string_pretty(&report.to_json()).unwrap());
         std::process::exit(if report.violation_count > 0 { 1 } else { 0 });
     }
@@ -1407,6 +1698,7 @@ fn main() {
     let n_random = if small { 24 } else { args.size(4_000, 1_000_000) };
     let n_stage2 = if small { 2 } else { args.size(300, 20_000) };
     let (ex_win, ex_len) = if args.is_thorough() { (6, 6) } else { (5, 5) };
+    let n_stage3 = args.size(60, 3_000);
 
     let mut report = run_workers(&args, "C06", |w, n, rng, report| {
         for rule in [Rule::Spot, Rule::Futures] {
@@ -1422,6 +1714,22 @@ fn main() {
                 execute(&h, report);
             }
         }
+        // stage 3 (real MarketStream::init over a loopback venue): one worker, one listener
+        if w == 0 && !small {
+            match loopback::env() {
+                Err(e) => {
+                    // no loopback sockets in this environment: the stage cannot run; stages 1 and 2 decide
+                    report.cover("stage3:skipped_loopback_unavailable");
+                    report.notes.push(format!("stage 3 skipped: {e}"));
+                }
+                Ok(env) => {
+                    for k in 0..n_stage3 {
+                        let h = random_history(rng, if k % 2 == 0 { Rule::Spot } else { Rule::Futures });
+                        execute_stage3(&env, &h, report);
+                    }
+                }
+            }
+        }
     });
 
     if !small {
@@ -1435,6 +1743,10 @@ fn main() {
             report.require(&format!("{rule}:stage2_reinitialised_connection_admits_updates"));
             report.require(&format!("{rule}:stage2_multi_instrument_connection"));
             report.require(&format!("{rule}:stage2_exhausted_connection_one_notice"));
+        }
+        if !report.coverage.contains_key("stage3:skipped_loopback_unavailable") {
+            report.require("stage3:market_stream_init_over_loopback");
+            report.require("stage3:updates_admitted_after_snapshot");
         }
     }
     std::process::exit(report.finish(args.out.as_deref()));
